@@ -20,7 +20,7 @@ CONFIG = dict(
         "Inv: both request stacks are empty while no coroutine runs on the thread (established initially, re-established by O9.1)",
     ],
     manifest=dict(
-        text="Proof, loop-free. For every state the coroutine can be in at a yield (Running, or Syscall of any call and sub-state - hooked waits yield with until(ts) while in a syscall state), every request (none / until(ts) for every ts / cancel) and every clock, Kani proves on the real resume_with -> raw_resume that both per-thread request stacks are empty again when the resume returns (frame condition, so nothing a coroutine requested can reach a later coroutine on the thread), that a reported Suspend carries exactly the requested time (0 for a plain suspend) and Cancelled is reported only if requested; a two-coroutine harness states the consequence directly. Tests never mix syscall-state yields with plain suspends on one thread.",
+        text="Proof, loop-free. For every state the coroutine can be in at a yield (Running, or Syscall of any call and sub-state - hooked waits yield with until(ts) while in a syscall state), every request (none / until(ts) for every ts / cancel / a cancel landing while an until(ts) request is already pending) and every clock, Kani proves on the real resume_with -> raw_resume that both per-thread request stacks are empty again when the resume returns (frame condition, so nothing a coroutine requested can reach a later coroutine on the thread), that a reported Suspend carries exactly the requested time (0 for a plain suspend) and Cancelled is reported only if requested; a two-coroutine harness states the consequence directly. Tests never mix syscall-state yields with plain suspends on one thread.",
         note="Trusted: the two-line contracts of the thread-local request stacks, the corosensei contract shim, catch_unwind call-through, TLS current-pointer accessors stubbed.",
         technique="contract-based deductive verification: Kani harness contracts on the real resume path with a frame condition over modelled per-thread request stacks",
     ),
@@ -29,8 +29,15 @@ CONFIG = dict(
 
 
 def native_replay(v, path):
-    # fixed scenario (two real coroutines, syscall-state yield then plain suspend): confirms, never overrules
+    # fixed scenarios, each confirms and never overrules: (1) two real coroutines, a syscall-state yield then a
+    # plain suspend; (2) white-box: both requests pending at one yield (cancel lands during until), then a plain suspend
     if not v["obligation"].startswith("C09."):
         return None
     rc, out = native.run_test("C09", "native/c09_replay.rs", "core/src/coroutine/korosensei.rs", "c09_native_replay")
-    return native.verdict(rc, out, dict(decisive=False, scenario="fixed: c09_native_replay"))
+    d = native.verdict(rc, out, dict(decisive=False, scenario="fixed: c09_native_replay"))
+    if not d.get("reproduced"):
+        rc, out = native.run_test("C09", "native/c09b_replay.rs", "core/src/coroutine/suspender.rs", "c09_native_cancel_during_until")
+        d2 = native.verdict(rc, out, dict(decisive=False, scenario="fixed: c09_native_cancel_during_until"))
+        if d2.get("reproduced"):
+            return d2
+    return d
